@@ -59,6 +59,14 @@ CHECKS["C12"] = dict(
     design_ref="5/C12",
 )
 
+CHECKS["C09"] = dict(
+    category="proof",
+    text="The representation invariant WF (id pool == ids of all contained objects incl. incoming elements, all ids pairwise distinct) is shown to be established by Scenario.__init__ and preserved by every public operation of the property (add_objects for each of the ten object kinds, remove_obstacle / remove_lanelet / remove_traffic_sign / remove_traffic_light / remove_intersection in single and list form, erase / replace_lanelet_network, generate_object_id), executed symbolically from the real source on a populated scenario (two lanelets sharing a sign, a light, an intersection with an incoming, one obstacle per role) whose ids are ALL symbolic integers, so every collision pattern of the operation's argument is covered; postconditions: ValueError and unchanged scenario on a used id, exact growth/shrink of the id set incl. cascades, re-adding a removed object succeeds, generated ids unused and never repeated. The history quantifier is discharged by induction over operations (WF is inductive).",
+    note="population shape fixed (2 lanelets, 1 sign, 1 light, 1 intersection, 4 obstacles); ids unbounded symbolic; dict/set with symbolic keys modelled by case-splitting equality of keys; adding a second lanelet network on top of a non-empty one via add_objects is not exercised (replace_lanelet_network is)",
+    technique="deductive: inductive invariant over the public operations, AST symbolic execution of real source with symbolic ids, VCs discharged by z3",
+    design_ref="5/C09",
+)
+
 NOT_YET = {}
 
 def main():
